@@ -336,7 +336,13 @@ func (t *StreamUnderlay) onOpenSessionResponse(seg *segment) error {
 	sessionID := seg.metadata.(*sessionStruct).sessionID
 	session, found := t.sessionMap.Load(sessionID)
 	if !found {
-		return fmt.Errorf("session ID %d is not found", sessionID)
+		// The session may have been closed and forgotten while the response
+		// was in flight. An error here would end the event loop and with it
+		// every other session of this connection.
+		if log.IsLevelEnabled(log.TraceLevel) {
+			log.Tracef("%v received openSessionResponse, but session ID %d is not found", t, sessionID)
+		}
+		return nil
 	}
 	if !t.deliverSegmentToSession(session.(*Session), seg) && log.IsLevelEnabled(log.TraceLevel) {
 		log.Tracef("%v ignored openSessionResponse segment for closed session %d", t, sessionID)
